@@ -15,21 +15,85 @@ theorem ostep_base {pw : Pid → List Wid} {x x' : X} {t : Tid} {b : Bool} {f : 
   | none => simp [hs] at h
   | some c' => simp [hs] at h; subst h; rfl
 
+@[simp] theorem settle_reg (e : Env) (t : Tid) (b : Bool) (r : Option Res) : (settle e t b r).reg = e.reg := by
+  unfold settle; split
+  · split <;> (try split) <;> rfl
+  · rfl
+@[simp] theorem settle_mic (e : Env) (t : Tid) (b : Bool) (r : Option Res) : (settle e t b r).mic = e.mic := by
+  unfold settle; split
+  · split <;> (try split) <;> rfl
+  · rfl
+@[simp] theorem settle_thr (e : Env) (t : Tid) (b : Bool) (r : Option Res) : (settle e t b r).thr = e.thr := by
+  unfold settle; split
+  · split <;> (try split) <;> rfl
+  · rfl
+@[simp] theorem settle_rl (e : Env) (t : Tid) (b : Bool) (r : Option Res) : (settle e t b r).rl = e.rl := by
+  unfold settle; split
+  · split <;> (try split) <;> rfl
+  · rfl
+
 theorem ostep_env {pw : Pid → List Wid} {x x' : X} {t : Tid} {b : Bool} {f : Env → Env}
-    (h : ostep pw x t b f = some x') : x'.env = f x.env := by
+    (h : ostep pw x t b f = some x') : ∃ i r, x'.env = settle (f x.env) t i r := by
   unfold ostep at h
   cases hs : step? pw (fun _ => b) x.base t with
   | none => simp [hs] at h
-  | some c' => simp [hs] at h; subst h; rfl
+  | some c' => simp [hs] at h; subst h; exact ⟨_, _, rfl⟩
+
+theorem ostep_reg {pw : Pid → List Wid} {x x' : X} {t : Tid} {b : Bool} {f : Env → Env}
+    (h : ostep pw x t b f = some x') : x'.env.reg = (f x.env).reg := by
+  obtain ⟨i, r, hi⟩ := ostep_env h; rw [hi, settle_reg]
+
+theorem startPiece_base {pw : Pid → List Wid} {x x' : X} {t : Tid} {op : Op} {f : Env → Env}
+    (h : startPiece pw x t op f = some x') : step? pw (fun _ => false) x.base t = some x'.base := by
+  unfold startPiece at h
+  split at h
+  · split at h
+    · exact ostep_base h
+    · exact absurd h (by simp)
+  · exact absurd h (by simp)
+
+theorem startPiece_reg {pw : Pid → List Wid} {x x' : X} {t : Tid} {op : Op} {f : Env → Env}
+    (h : startPiece pw x t op f = some x') : x'.env.reg = (f x.env).reg := by
+  unfold startPiece at h
+  split at h
+  · split at h
+    · exact ostep_reg h
+    · exact absurd h (by simp)
+  · exact absurd h (by simp)
+
+@[simp] theorem setCtl_reg (e : Env) (t : Tid) (c : Ctl) : (setCtl e t c).reg = e.reg := rfl
+@[simp] theorem popProg_reg (e : Env) (t : Tid) : (popProg e t).reg = e.reg := rfl
+
+/-- A controller step starts a piece (an `Owner` step) or only moves the controller. -/
+theorem cstep_base {pw : Pid → List Wid} {x x' : X} {t : Tid} {c : Ctl} (h : cstep pw x t c = some x') :
+    x'.base = x.base ∨ ∃ u, step? pw u x.base t = some x'.base := by
+  unfold cstep at h
+  repeat' split at h
+  all_goals first
+    | exact Or.inr ⟨_, startPiece_base h⟩
+    | (simp only [Option.some.injEq, reduceCtorEq] at h; subst h; exact Or.inl rfl)
+    | exact absurd h (by simp)
+
+theorem cstep_reg {pw : Pid → List Wid} {x x' : X} {t : Tid} {c : Ctl} (h : cstep pw x t c = some x') :
+    x'.env.reg = x.env.reg := by
+  unfold cstep at h
+  repeat' split at h
+  all_goals first
+    | (rw [startPiece_reg h]; rfl)
+    | (simp only [Option.some.injEq, reduceCtorEq] at h; subst h; rfl)
+    | exact absurd h (by simp)
 
 /-- A step of the product is a step of `Owner` under some oracle value, or leaves the ownership
-configuration untouched (registry-lock steps inside `is_alive`, environment threads). -/
+configuration untouched (registry-lock steps inside `is_alive`, environment threads, controller steps of the
+composite operations that start no piece). -/
 theorem xstep_base {pw : Pid → List Wid} {x x' : X} {t : Tid} (h : xstep? pw x t = some x') :
     x'.base = x.base ∨ ∃ u, step? pw u x.base t = some x'.base := by
   unfold xstep? at h
   repeat' split at h
   all_goals first
     | exact Or.inr ⟨_, ostep_base h⟩
+    | exact Or.inr ⟨_, startPiece_base h⟩
+    | exact cstep_base h
     | (simp only [Option.some.injEq, reduceCtorEq] at h; subst h; exact Or.inl rfl)
     | (simp only [Option.map_eq_some_iff] at h; obtain ⟨e', _, h⟩ := h; subst h; exact Or.inl rfl)
     | exact absurd h (by simp)
@@ -73,7 +137,14 @@ theorem XReach_xrun {pw : Pid → List Wid} {x0 : X} (ts : List Tid) :
   · rfl
   · simp only [setMic_reg]; split <;> rfl
 
-@[simp] theorem submitPlain_reg (e : Env) (w : Wid) : (submitPlain e w).reg = e.reg := rfl
+@[simp] theorem submitPlain_reg (e : Env) (t : Tid) (w : Wid) : (submitPlain e t w).reg = e.reg := rfl
+
+@[simp] theorem afterAlive_reg (e : Env) (t : Tid) (k : K) (b : Bool) : (afterAlive e t k b).reg = e.reg := by
+  unfold afterAlive
+  split
+  · split <;> rfl
+  · rfl
+  · rfl
 
 @[simp] theorem startE_reg (e : Env) (t : Tid) (op : EOp) : (startE e t op).reg = e.reg := by
   cases op with
@@ -81,13 +152,16 @@ theorem XReach_xrun {pw : Pid → List Wid} {x0 : X} (ts : List Tid) :
   | revive w => rfl
   | send w al => rfl
   | tick d => rfl
+  | shutdown w => rfl
   | deliver k fail =>
     simp only [startE]
     split
     · rfl
     · split
       · rfl
-      · split <;> rfl
+      · split
+        · rfl
+        · split <;> rfl
 
 /-- The registry after a step is the registry before it with the step's events applied, in order. -/
 theorem xstep_reg {pw : Pid → List Wid} {x x' : X} {t : Tid} (h : xstep? pw x t = some x') :
@@ -102,40 +176,74 @@ theorem xstep_reg {pw : Pid → List Wid} {x x' : X} {t : Tid} (h : xstep? pw x 
     case cExit =>
       cases hm : x.env.mic t <;> simp only [hm] at h ⊢ <;>
         first
-        | (rw [ostep_env h]; simp [Registry.run]; done)
+        | (rw [ostep_reg h]; simp [Registry.run]; done)
         | (simp at h; done)
+    case iEnter =>
+      cases hm : x.env.mic t <;> simp only [hm] at h ⊢ <;>
+        first
+        | (rw [ostep_reg h]; simp [Registry.run]; done)
+        | (split at h
+           · simp only [Option.some.injEq] at h; subst h; simp [Registry.run]
+           · simp at h)
+        | (simp only [Option.some.injEq] at h; subst h; simp [Registry.run]; done)
     case iExit =>
       cases hm : x.env.mic t <;> simp only [hm] at h ⊢ <;>
         first
-        | (rw [ostep_env h]; simp [Registry.run]; done)
+        | (rw [ostep_reg h]; simp [Registry.run]; done)
         | (split at h
            · simp only [Option.some.injEq] at h; subst h; simp [Registry.run, Registry.REv.apply]
            · simp at h)
         | (simp only [Option.some.injEq] at h; subst h; simp [Registry.run]; done)
         | (simp at h; done)
-    all_goals (rw [ostep_env h]; simp [Registry.run])
+    all_goals (rw [ostep_reg h]; simp [Registry.run])
   | none =>
     simp only [hcur] at h ⊢
-    cases hsc : (x.base.T t).script with
-    | cons op s =>
-      simp only [hsc] at h ⊢
-      rw [ostep_env h]; simp [Registry.run]
-    | nil =>
-      simp only [hsc, Option.map_eq_some_iff] at h ⊢
-      obtain ⟨e', he, h⟩ := h
-      subst h
-      unfold estep at he
-      cases hm : x.env.mic t <;> simp only [hm] at he ⊢ <;>
-        first
-        | (simp at he; done)
-        | (split at he
-           · simp only [Option.some.injEq] at he; subst he
-             simp [Registry.run, Registry.REv.apply, Registry.heartbeatEvents]
-           · simp at he)
-        | (simp only [Option.some.injEq] at he; subst he; simp [Registry.run]; done)
-        | (split at he
-           · simp at he
-           · simp only [Option.some.injEq] at he; subst he; simp [Registry.run])
+    cases hctl : x.env.ctl t with
+    | idle =>
+      simp only [hctl] at h ⊢
+      cases hprog : x.env.prog t with
+      | nil =>
+        simp only [hprog] at h ⊢
+        cases hsc : (x.base.T t).script with
+        | cons op s =>
+          simp only [hsc] at h ⊢
+          rw [ostep_reg h]; rfl
+        | nil =>
+          simp only [hsc, Option.map_eq_some_iff] at h ⊢
+          obtain ⟨e', he, h⟩ := h
+          subst h
+          unfold estep at he
+          cases hm : x.env.mic t <;> simp only [hm] at he ⊢ <;>
+            first
+            | (simp at he; done)
+            | (split at he
+               · simp only [Option.some.injEq] at he; subst he
+                 simp [Registry.run, Registry.REv.apply, Registry.heartbeatEvents]
+               · simp at he)
+            | (simp only [Option.some.injEq] at he; subst he; simp [Registry.run]; done)
+            | (split at he
+               · simp at he
+               · simp only [Option.some.injEq] at he; subst he; simp [Registry.run])
+      | cons top rest =>
+        simp only [hprog] at h ⊢
+        cases top with
+        | prim =>
+          simp only at h
+          split at h
+          · rw [ostep_reg h]; rfl
+          · simp at h
+        | run p r =>
+          simp only [Option.some.injEq] at h; subst h; rfl
+        | callAndWait p r =>
+          simp only at h
+          rw [startPiece_reg h]; rfl
+        | submitNB p w r =>
+          simp only at h
+          rw [startPiece_reg h]; rfl
+    | _ =>
+      all_goals
+        simp only [hctl] at h ⊢
+        rw [cstep_reg h]; rfl
 
 /-- **Dead stays dead under every schedule.**  Along any replayed schedule of the product in which no
 executed step performs a `register a`, a dead entry stays dead. -/
